@@ -29,6 +29,8 @@ Conforms(o) ==
                  /\ o.out.proto = LineProto(l) /\ o.out.net = l.net
                  /\ o.out.version_matches                    \* the negotiated version is the line's
   /\ ~o.out.ok => o.out.killed                               \* C05: a failed start kills what it launched
+  /\ ~o.out.ok => ~o.out.again_ok                            \* a rejected line stays rejected: asking again does not succeed
+  /\ o.out.launches <= 1                                     \* C19: and launches nothing more
 
 TInit == i = 1 /\ bad = 0 /\ line = L(Obs[1]) /\ cfg = C(Obs[1]) /\ out = Err /\ decided = FALSE
 TNext ==
